@@ -27,7 +27,7 @@ GenInit ==
         /\ hist = Script(p, k, o, t, c)
         /\ par = p /\ kind = k
         /\ val = o /\ old = o /\ target = t /\ written = {} /\ phase = "idle"
-        /\ cache = c /\ pc = <<"idle">> /\ rewrites = 0
+        /\ cache = c /\ pc = <<"idle">> /\ rewrites = 0 /\ algo = "leveled"
 
 GenSpec  == GenInit /\ [][UNCHANGED <<vars, hist>>]_<<vars, hist>>
 GenPrint == PrintT(ToJson(hist))
